@@ -176,6 +176,29 @@ def run_shard(ctx: Ctx, rec: Recorder) -> None:
             rec.mon("defaults_unchanged")
             if snapshot_kw(pm) != before:
                 rec.fail({"kw": kw, "scheme": scheme, "via": "pool_kwargs"}, "manager-defaults-changed", {"kw": kw}, f"connection_pool_kw changed after overriding {kw}")
+            # (a') the same through a ProxyManager (forwarded http destinations share the proxy's pool, https ones are
+            # tunnelled): default -> override -> default on ONE manager, and override first on a fresh one
+            if not kw.startswith("_") and kw not in ("proxy", "proxy_config", "proxy_headers"):
+                for order in ("default-first", "override-first"):
+                    ppm = urllib3.ProxyManager("http://proxy.test:3128", num_pools=50)
+                    pcase = {"kw": kw, "scheme": scheme, "via": "proxy-manager", "order": order}
+                    rec.case(["proxy", kw, scheme, order])
+                    d0 = pool_of(ppm, scheme, None) if order == "default-first" else None
+                    o1 = pool_of(ppm, scheme, {kw: facts[0]()})
+                    d1 = pool_of(ppm, scheme, None)
+                    o2 = pool_of(ppm, scheme, {kw: facts[1]()})
+                    d2 = pool_of(ppm, scheme, None, host="other.test")
+                    rec.mon("proxy_manager_sequence")
+                    if o1[0] != "pool" or d1[0] != "pool":
+                        continue
+                    if d1[1] is o1[1]:
+                        rec.fail(pcase, "override-shares-default-pool", {"kw": kw, "value": repr(facts[0]())[:60], "via": "proxy-manager"}, f"ProxyManager: {kw} override and the following default request share one pool")
+                    if d0 is not None and d0[0] == "pool" and d1[1] is not d0[1]:
+                        rec.fail(pcase, "equal-settings-different-pool", {"kw": kw, "via": "proxy-manager"}, f"ProxyManager: default context maps to another pool after a {kw} override")
+                    if o2[0] == "pool" and o2[1] is o1[1]:
+                        rec.fail(pcase, "different-settings-same-pool", {"kw": kw, "i": 0, "j": 1, "via": "proxy-manager"}, f"ProxyManager: two different {kw} overrides share one pool")
+                    if scheme == "http" and d2[0] == "pool" and (d2[1] is o1[1] or (o2[0] == "pool" and d2[1] is o2[1])):
+                        rec.fail(pcase, "override-shares-default-pool", {"kw": kw, "via": "proxy-manager", "other_host": True}, f"ProxyManager: a default request to another host is served by the pool created for a {kw} override")
             # (b) via constructor defaults (keywords that PoolManager.__init__ itself consumes, such as
             # 'headers', never reach connection_pool_kw and are exercised through pool_kwargs only)
             if kw in inspect.signature(urllib3.PoolManager.__init__).parameters:
